@@ -154,6 +154,10 @@ func (c Config) Args() []string {
 	return a
 }
 
+// RootToken is replaced by the absolute path of the case directory when the
+// files are materialised (absolute-path and file:// references).
+const RootToken = "@@ROOT@@"
+
 // WriteFiles materialises the case's files under dir.
 func (c *Case) WriteFiles(dir string) error {
 	for _, f := range c.Files {
@@ -161,7 +165,8 @@ func (c *Case) WriteFiles(dir string) error {
 		if err := os.MkdirAll(filepath.Dir(p), 0o755); err != nil {
 			return err
 		}
-		if err := os.WriteFile(p, []byte(f.Text), 0o644); err != nil {
+		text := strings.ReplaceAll(f.Text, RootToken, dir)
+		if err := os.WriteFile(p, []byte(text), 0o644); err != nil {
 			return err
 		}
 	}
